@@ -28,6 +28,7 @@ type res struct {
 	TS   int64  `json:"ts"`  // ns since the Unix epoch
 	Lat  int64  `json:"lat"` // ns
 	BOut uint64 `json:"bytes_out"`
+	Body int    `json:"body_len,omitempty"` // length of the response body carried by the record (ignored by Metrics)
 	BIn  uint64 `json:"bytes_in"`
 	Err  string `json:"error"`
 }
@@ -41,8 +42,12 @@ type history struct {
 }
 
 func (x res) result() *vegeta.Result {
-	return &vegeta.Result{Code: x.Code, Timestamp: time.Unix(x.TS/1e9, x.TS%1e9), Latency: time.Duration(x.Lat),
+	v := &vegeta.Result{Code: x.Code, Timestamp: time.Unix(x.TS/1e9, x.TS%1e9), Latency: time.Duration(x.Lat),
 		BytesOut: x.BOut, BytesIn: x.BIn, Error: x.Err}
+	if x.Body > 0 {
+		v.Body = bytes.Repeat([]byte("body "), x.Body/5+1)[:x.Body]
+	}
+	return v
 }
 
 // ---------------------------------------------------------------- canonical rendering
@@ -751,6 +756,25 @@ func reportCommand(c *run.Ctx, r *kit.Rng, s *kit.Summary) {
 			format = 0
 			rs = carryOverResults(r, 2+r.Pick(40))
 			s.Count("report:crafted_zero_after_nonzero")
+		}
+		if i%6 == 1 {
+			// records far larger than a 64 KiB line/token buffer, never the first one, sometimes the very last:
+			// everything behind such a record must still be counted (all three encodings)
+			size = int(r.Range(3, 120))
+			rs = genResults(r, size, true, s)
+			format = (i / 6) % 3
+			pos := []int{int(r.Range(1, int64(size-1)))}
+			if r.Chance(0.5) {
+				pos = append(pos, int(r.Range(1, int64(size-1))))
+			}
+			if r.Chance(0.4) {
+				pos = append(pos, size-1)
+				s.Count("report:huge_record_last")
+			}
+			for _, p := range pos {
+				rs[p].Body = int(r.Range(50000, 150000))
+			}
+			s.Count("report:huge_record_" + []string{"gob", "json", "csv"}[format])
 		}
 		if format == 0 && zeroAfterNonzero(rs) {
 			s.Count("report:gob_zero_field_after_nonzero")
